@@ -25,8 +25,19 @@ LEAN_MODULE = "Props.C18"
 TRUSTED = [
     "Lean 4.33 kernel; axioms propext, Classical.choice, Quot.sound only (audited by #print axioms)",
     "hand-written models lean/HapModel/Advert.lean (config number, name sanitising incl. Python re.sub/strip/replace "
-    "semantics on the three fixed patterns, TXT record, xhm_uri/base36) and lean/HapModel/AdvertSys.lean (event model "
-    "of _process_response / finish_pair / async_update_advertisement), tied to the code by this differential run",
+    "semantics on the three fixed patterns, TXT record incl. the setup hash, xhm_uri/base36), lean/HapModel/AdvertSys.lean "
+    "(event model of _process_response / finish_pair / async_update_advertisement plus the application side "
+    "config_changed / update_advertisement / unpair) and lean/HapModel/AdvertLife.lean (config number and persist file over "
+    "any number of process lifetimes: add_accessory load-or-persist, async_start, config_changed, runtime restructuring), "
+    "tied to the code by this differential run (whole TXT record of every refresh; live and persisted c# after every op)",
+    "AccessoryDriver.unpair called by the application (not through a remove-pairing request) refreshes nothing: outside the "
+    "request paths the property speaks of; modelled, tied, C18_sf_tracks_pairing excludes it and "
+    "C18_sf_tracks_after_explicit_refresh says what restores the flag",
+    "a restart compares with the configuration of the previous START: lifetimes in which the application restructured the "
+    "running accessory are tied (model = code, C18_cfg_life_runtime_change_counted_twice) but not judged by the oracle",
+    "the specification-side definitions of the theorems (ValidInstanceLabel, ValidHostLabel, xhmDecode) are run by the "
+    "driver against harness/ref/dnslabel.py and harness/ref/xhm.py; MacTailOk / PinShape are evaluated on what "
+    "util.generate_mac / generate_pincode produce",
     "to_HAP(include_value=False) modelled as a function of iid+metadata only; tied by checking that "
     "driver.accessories_hash is invariant under set_value/client_update_value on real accessories and that model "
     "rendering equality coincides with real hash equality on the generated restart pairs",
@@ -544,10 +555,16 @@ async def _async_noop(*_a, **_k):
 
 
 def start_driver(env):
-    """Real AccessoryDriver.async_start (mDNS + HTTP server replaced), QR code output swallowed."""
-    with contextlib.redirect_stdout(io.StringIO()):
+    """Real AccessoryDriver.async_start (mDNS + HTTP server replaced), QR code output swallowed.
+    Returns the setup payload the start printed for the user to scan (None if it printed none)."""
+    buf = io.StringIO()
+    with contextlib.redirect_stdout(buf):
         env.loop.run_until_complete(env.driver.async_start())
         spin(env.loop)
+    for line in buf.getvalue().splitlines():
+        if line.startswith("Setup payload: "):
+            return line[len("Setup payload: "):].strip()
+    return None
 
 
 def impl_restart(m, case) -> Dict[str, Any]:
@@ -1241,7 +1258,7 @@ def impl_sys(m, script) -> Dict[str, Any]:
             # the configuration number the script starts with: what async_start's hash comparison leaves behind
             driver.state.accessories_hash = driver.accessories_hash
             driver.state.config_version = ident["cfg0"]
-            start_driver(env)
+            printed_payload = start_driver(env)
             connections: Dict[Any, Any] = {}
             protos = {}
             for k, session in script["conns"].items():
@@ -1398,7 +1415,8 @@ def impl_sys(m, script) -> Dict[str, Any]:
             final_cfg = driver.state.config_version
             setup_id = driver.state.setup_id
     return {"events": events, "reqs": reqs, "final": final, "model_steps": model_steps, "pending": pending,
-            "closed": closed, "dropped": dropped, "final_cfg": final_cfg, "setup_id": setup_id, "app_unpairs": app_unpairs,
+            "closed": closed, "dropped": dropped, "final_cfg": final_cfg, "setup_id": setup_id, "printed_payload": printed_payload,
+            "pincode": bytes(driver.state.pincode).decode("ascii"), "app_unpairs": app_unpairs,
             "ident": ident}
 
 
@@ -1452,6 +1470,20 @@ def oracle_sys(ctx: Ctx, script, got):
                 return
             if e["c#"] != str(e["cfg"]):
                 ctx.fail("C18:cfg-not-advertised", f"record carries c#={e['c#']!r} while config_version is {e['cfg']}", rep)
+                return
+    # (1b) the setup payload printed at start for the user to scan decodes to this accessory's category,
+    #      setup code and setup id
+    if got.get("printed_payload") is not None:
+        want = {"category": got["ident"]["category"], "code": int(got["pincode"].replace("-", ""), 10), "setup_id": got["setup_id"]}
+        try:
+            d = refxhm.decode(got["printed_payload"])
+        except refxhm.XhmError as ex:
+            ctx.fail("C18:xhm-undecodable", f"printed setup payload {got['printed_payload']!r} is not a setup payload ({ex})", rep)
+            return
+        for k in ("category", "code", "setup_id"):
+            if d[k] != want[k]:
+                ctx.fail(f"C18:xhm-wrong-{k.replace('_', '-')}",
+                         f"printed setup payload {got['printed_payload']!r} decodes to {k}={d[k]!r}, accessory has {want[k]!r}", rep)
                 return
     # (2) the refreshed record of the last step of pairing / unpairing comes after that step's response:
     #     no record reaches the advertiser between the arrival of the request and the moment the response
@@ -1597,9 +1629,13 @@ def run(ctx: Ctx):
     st.rule = (
         "names: boundary list + Unicode-heavy random display names (1..200 chars); non-trivial if sanitising changes the "
         "name, truncates it or falls back. cfg: op sequences around 65535; non-trivial if a wrap or a refused change occurs. "
-        "restart: config pairs through real persist/load/async_start; non-trivial unless identical. xhm: all 256 categories x "
-        "setup codes. sys: event scripts on the real HAPServerProtocol with controlled executor/loop; non-trivial if a "
-        "pairing-changing request occurs. Distinct by canonical input."
+        "restart: config pairs through real persist/load/async_start; non-trivial unless identical. life: 2..4 process lifetimes "
+        "on one persist file with value changes, config_changed, saves and live restructuring; non-trivial if anything but "
+        "identical restarts happens. xhm: all 256 categories x "
+        "setup codes. sys: event scripts on the real HAPServerProtocol with controlled executor/loop and application calls "
+        "(config_changed, update_advertisement, unpair); non-trivial if a "
+        "pairing-changing request occurs. spec: labels/URIs through the Lean-side validity predicates and decoder vs the Python "
+        "validators; non-trivial if something is rejected. Distinct by canonical input."
     )
     lines: List[Dict[str, Any]] = []
     impl: List[Any] = []
@@ -1820,6 +1856,8 @@ def run(ctx: Ctx):
         st.hit("outcome", "sys-pairing-changed" if changing else "sys-no-change")
         st.hit("outcome", "sys-publishes", sum(1 for e in got["events"] if e["ev"] == "publish"))
         st.hit("outcome", "sys-sessions-closed", len(got["closed"]))
+        if got.get("printed_payload") is not None:
+            st.hit("outcome", "sys-setup-payload-printed-at-start")
         st.hit("outcome", "sys-requests-dropped-on-closed-connection", got["dropped"])
         if i == 1:
             st.sample({"sys_script": script, "impl_trace": canon_sys_impl(got)})
